@@ -210,6 +210,7 @@ package dig
 //@   allocates
 //@   maypanic
 //@   let dflt = as(c, ptr(Scope)).invokerFn == defaultInvoker
+//@   ensures[C13:panic-to-PanicError] recovered() ==> n.s.recoverFromPanics && is(err, PanicError) && as(err, PanicError).Panic == $recovered && as(err, PanicError).fn == n.location
 //@   ensures[C02:a-constructor-being-built-is-not-entered-again,C05:a-constructor-being-built-is-not-entered-again] !old(n.called) && old(n.onStack) ==> err != nil && chainHasCycle(err) && unchangedAll()
 //@        && $nrun == old($nrun) && $ncb == old($ncb) && $ev == old($ev)
 //@   ensures[C02:the-marker-is-set-while-the-arguments-are-built,C05:the-marker-is-set-while-the-arguments-are-built] reached(BuildList_1) ==> at(BuildList_1, n.onStack)
@@ -218,14 +219,13 @@ package dig
 //@   ensures[C07:called-only-on-success] reached(BuildList_1) && err != nil ==> n.called == at(BuildList_1, n.called)
 //@   ensures[C07:fail-commits-nothing] reached(BuildList_1) && err != nil ==> sameSince(BuildList_1, map(Scope.values), map(Scope.groups), map(Scope.decoratedGroups))
 //@   ensures[C03:at-most-one-run] reached(BuildList_1) ==> $nrun <= at(BuildList_1, $nrun) + 1
-//@   ensures[C03:no-run-without-args] !reached(BuildList_1) || ret(BuildList_1, 1) != nil ==> $nrun == at(BuildList_1, $nrun) && $ncb == at(BuildList_1, $ncb)
+//@   ensures[C03:no-run-without-args,C17:no-run-without-args] !reached(BuildList_1) || ret(BuildList_1, 1) != nil ==> $nrun == at(BuildList_1, $nrun) && $ncb == at(BuildList_1, $ncb)
 //@   ensures[C04:missing-deps-no-run] !old(n.called) && !old(n.onStack) && !reached(BuildList_1) ==> err != nil && is(err, errMissingDependencies) && $nrun == old($nrun) && $ncb == old($ncb) && unchangedAll()
 //@   ensures[C01:runs-own-ctor-with-built-args] reached(invokerFn_1) && dflt ==> $nrun == at(BuildList_1, $nrun) + 1
 //@        && $runFn[at(BuildList_1, $nrun)] == valueOf(n.ctor) && $runArgs[at(BuildList_1, $nrun)] == ret(BuildList_1, 0)
 //@   ensures[C13:ctor-error-is-root-cause] reached(ExtractList_1) && ret(ExtractList_1, 0) != nil ==> is(err, errConstructorFailed)
 //@        && as(err, errConstructorFailed).Reason == ret(ExtractList_1, 0) && as(err, errConstructorFailed).Func == n.location
 //@   ensures[C13:args-error-wrapped] reached(BuildList_1) && ret(BuildList_1, 1) != nil ==> is(err, errArgumentsFailed) && as(err, errArgumentsFailed).Reason == ret(BuildList_1, 1)
-//@   ensures[C13:panic-to-PanicError] recovered() ==> n.s.recoverFromPanics && is(err, PanicError) && as(err, PanicError).Panic == $recovered && as(err, PanicError).fn == n.location
 //@   ensures[C13:recovered-is-the-functions-panic] recovered() ==> reached(invokerFn_1_panic) && $recovered == ret(invokerFn_1_panic, 0)
 //@   onpanic[C13:panic-propagates-unchanged] reached(invokerFn_1_panic) ==> $panic == ret(invokerFn_1_panic, 0) && !n.s.recoverFromPanics
 //@   onpanic[C07:panic-commits-nothing] reached(BuildList_1) ==> n.called == at(BuildList_1, n.called)
@@ -255,10 +255,11 @@ package dig
 //@   allocates
 //@   maypanic
 //@   let dflt = as(s, ptr(Scope)).invokerFn == defaultInvoker
+//@   ensures[C13:dec-panic-to-PanicError] recovered() ==> n.s.recoverFromPanics && is(err, PanicError) && as(err, PanicError).Panic == $recovered && as(err, PanicError).fn == n.location
 //@   ensures[C02:the-decorator-is-marked-while-its-arguments-are-built,C12:the-decorator-is-marked-while-its-arguments-are-built] reached(BuildList_1) ==> at(BuildList_1, n.state == decoratorOnStack)
 //@   ensures[C02:dec-noop-when-called] old(n.state) == decoratorCalled ==> err == nil && unchangedAll() && $nrun == old($nrun) && $ncb == old($ncb) && $ev == old($ev)
 //@   ensures[C02:dec-success-means-called] err == nil ==> n.state == decoratorCalled
-//@   ensures[C07:dec-fail-resets-state,C12:dec-fail-resets-state,C02:dec-fail-resets-state] err != nil ==> n.state == decoratorReady
+//@   ensures[C07:dec-fail-resets-state,C12:dec-fail-resets-state,C02:dec-fail-resets-state,C04:dec-fail-resets-state] err != nil ==> n.state == decoratorReady
 //@   ensures[C07:dec-fail-commits-nothing] reached(BuildList_1) && err != nil ==> sameSince(BuildList_1, map(Scope.values), map(Scope.groups), map(Scope.decoratedGroups))
 //@   onpanic[C07:dec-panic-resets-state,C12:dec-panic-resets-state,C02:dec-panic-resets-state] n.state == decoratorReady
 //@   onpanic[C07:dec-panic-commits-nothing] reached(BuildList_1) ==> sameSince(BuildList_1, map(Scope.values), map(Scope.groups), map(Scope.decoratedGroups))
@@ -269,7 +270,6 @@ package dig
 //@        && $runFn[at(BuildList_1, $nrun)] == valueOf(n.dcor) && $runArgs[at(BuildList_1, $nrun)] == ret(BuildList_1, 0)
 //@   ensures[C13:dec-error-identity] reached(ExtractList_1) && ret(ExtractList_1, 0) != nil ==> err == ret(ExtractList_1, 0)
 //@   ensures[C13:dec-args-error-wrapped] reached(BuildList_1) && ret(BuildList_1, 1) != nil ==> is(err, errArgumentsFailed) && as(err, errArgumentsFailed).Reason == ret(BuildList_1, 1)
-//@   ensures[C13:dec-panic-to-PanicError] recovered() ==> n.s.recoverFromPanics && is(err, PanicError) && as(err, PanicError).Panic == $recovered && as(err, PanicError).fn == n.location
 //@   ensures[C13:dec-recovered-is-the-functions-panic] recovered() ==> reached(invokerFn_1_panic) && $recovered == ret(invokerFn_1_panic, 0)
 //@   onpanic[C13:dec-panic-propagates-unchanged] reached(invokerFn_1_panic) ==> $panic == ret(invokerFn_1_panic, 0) && !n.s.recoverFromPanics
 //@   ensures[C20:dec-callback-once-with-outcome] reached(BuildList_1) && ret(BuildList_1, 1) == nil && n.callback != nil ==>
@@ -452,9 +452,9 @@ package dig
 //@ func RootCause(err) (r)
 //@   allocates
 //@   ensures[C13:root-cause-of-a-non-dig-chain-is-the-error-itself] firstDig(err) == nil ==> r == err
-//@   ensures[C13:root-cause-stops-at-the-first-error-that-is-not-digs] firstDig(err) != nil ==> r == descend(firstDig(err))
+//@   ensures[C13:root-cause-stops-at-the-first-error-that-is-not-digs,C07:root-cause-stops-at-the-first-error-that-is-not-digs] firstDig(err) != nil ==> r == descend(firstDig(err))
 //@   ensures[C13:root-cause-runs-nothing] $nrun == old($nrun) && $ncb == old($ncb)
-//@   loop for #1: invariant[C13:descending-through-dig-errors-only] de != nil && isA(de, Error) && descend(de) == descend(firstDig(err)) && firstDig(err) != nil
+//@   loop for #1: invariant[C13:descending-through-dig-errors-only,C07:descending-through-dig-errors-only] de != nil && isA(de, Error) && descend(de) == descend(firstDig(err)) && firstDig(err) != nil
 
 //@ func IsCycleDetected(err) (r)
 //@   allocates
@@ -878,7 +878,7 @@ package dig
 //@   ensures[C08:other-scopes-untouched] forall x *Scope :: existed(x) && x != s ==> x.childScopes == old(x.childScopes)
 //@   loop range s.gh.nodes #1: invariant[C16:graph-copied-so-far] child.gh != nil && fresh(child.gh) && len(child.gh.nodes) == $i && (cap(child.gh.nodes) == 0 || fresh(child.gh.nodes))
 //@        && (forall j int :: 0 <= j && j < $i ==> child.gh.nodes[j] == s.gh.nodes[j])
-//@   loop range s.gh.nodes #1: invariant[C16:orders-copied-so-far] forall j int :: 0 <= j && j < $i ==> orderOf(s.gh.nodes[j].Wrapped, child) == orderOf(s.gh.nodes[j].Wrapped, s)
+//@   loop range s.gh.nodes #1: invariant[C16:orders-copied-so-far,C08:orders-copied-so-far] forall j int :: 0 <= j && j < $i ==> orderOf(s.gh.nodes[j].Wrapped, child) == orderOf(s.gh.nodes[j].Wrapped, s)
 //@   loop range s.gh.nodes #1: invariant[C16:parents-orders-kept] forall j int :: 0 <= j && j < len(s.gh.nodes) ==> orderOf(s.gh.nodes[j].Wrapped, s) == old(orderOf(s.gh.nodes[j].Wrapped, s))
 //@   loop range s.gh.nodes #1: invariant[C16:stores-separate-while-copying] graphsSeparate()
 //@   loop range s.gh.nodes #1: invariant[C16:links-kept-while-copying] childrenLinked() && childListsSeparate() && registriesSeparate() && decoratorMapsSeparate()
@@ -1182,7 +1182,7 @@ package dig
 //@        && (forall i int :: 0 <= i && i < len(rs.As) ==> r[i + 1].Node.Type == rs.As[i] && r[i + 1].Node.Name == rs.Name && r[i + 1].Node.Group == "")
 //@   ensures old(treeInv()) ==> treeInv()
 //@   loop range rs.As #1: complete[C18:every-as-type-is-reported]
-//@   loop range rs.As #1: invariant[C18:as-entries-so-far] len(dotResults) == $i + 1 && fresh(dotResults) && (forall i int :: 0 <= i && i < len(dotResults) ==> dotResults[i] != nil && dotResults[i].Node != nil && fresh(dotResults[i]) && fresh(dotResults[i].Node) && dotResults[i] <= $alloc && dotResults[i].Node <= $alloc) && dotResults.arr <= $alloc
+//@   loop range rs.As #1: invariant[C18:as-entries-so-far,C19:as-entries-so-far] len(dotResults) == $i + 1 && fresh(dotResults) && (forall i int :: 0 <= i && i < len(dotResults) ==> dotResults[i] != nil && dotResults[i].Node != nil && fresh(dotResults[i]) && fresh(dotResults[i].Node) && dotResults[i] <= $alloc && dotResults[i].Node <= $alloc) && dotResults.arr <= $alloc
 //@        && dotResults[0].Node.Type == rs.Type && dotResults[0].Node.Name == rs.Name && dotResults[0].Node.Group == ""
 //@        && (forall i int :: 0 <= i && i < $i ==> dotResults[i + 1].Node.Type == rs.As[i] && dotResults[i + 1].Node.Name == rs.Name && dotResults[i + 1].Node.Group == "")
 
@@ -1192,7 +1192,7 @@ package dig
 //@        && (forall i int :: 0 <= i && i < len(rt.As) ==> r[i + 1].Node.Type == rt.As[i] && r[i + 1].Node.Group == rt.Group && r[i + 1].Node.Name == "")
 //@   ensures old(treeInv()) ==> treeInv()
 //@   loop range rt.As #1: complete[C18:every-group-as-type-is-reported]
-//@   loop range rt.As #1: invariant[C18:group-as-entries-so-far] len(dotResults) == $i + 1 && fresh(dotResults) && (forall i int :: 0 <= i && i < len(dotResults) ==> dotResults[i] != nil && dotResults[i].Node != nil && fresh(dotResults[i]) && fresh(dotResults[i].Node) && dotResults[i] <= $alloc && dotResults[i].Node <= $alloc) && dotResults.arr <= $alloc
+//@   loop range rt.As #1: invariant[C18:group-as-entries-so-far,C19:group-as-entries-so-far] len(dotResults) == $i + 1 && fresh(dotResults) && (forall i int :: 0 <= i && i < len(dotResults) ==> dotResults[i] != nil && dotResults[i].Node != nil && fresh(dotResults[i]) && fresh(dotResults[i].Node) && dotResults[i] <= $alloc && dotResults[i].Node <= $alloc) && dotResults.arr <= $alloc
 //@        && dotResults[0].Node.Type == rt.Type && dotResults[0].Node.Group == rt.Group && dotResults[0].Node.Name == ""
 //@        && (forall i int :: 0 <= i && i < $i ==> dotResults[i + 1].Node.Type == rt.As[i] && dotResults[i + 1].Node.Group == rt.Group && dotResults[i + 1].Node.Name == "")
 
